@@ -78,7 +78,7 @@ class BoundedCheck:
         seen_sigs: Dict[str, int] = {}
         for case in self.cases(tier, seed):
             res.evaluations += 1
-            vs = self.check(case, res)
+            vs = self.guarded_check(case, res)
             if len(res.samples) < 5:
                 res.samples.append(_j(case))
             for v in vs:
@@ -88,5 +88,24 @@ class BoundedCheck:
         res.seconds = time.time() - t0
         return res
 
+    def guarded_check(self, case, res) -> List[Violation]:
+        """check(), with an exception that escapes from fsic itself (innermost frame inside the package under test, not anticipated by the
+        harness) turned into a violation of 'the operation completes' for this case.  An exception raised by the harness's own code
+        still propagates and ends as a checker error."""
+        import os
+        import traceback
+        try:
+            return self.check(case, res)
+        except Exception as ex:  # noqa: BLE001
+            root = os.path.realpath(os.path.join(os.environ.get('FSIC_REPO', '/repo'), 'fsic'))
+            frames = traceback.extract_tb(ex.__traceback__)
+            inside = [f for f in frames if os.path.realpath(f.filename).startswith(root + os.sep)]
+            if not inside:
+                raise
+            f = inside[-1]
+            return [Violation('the operation completes as on the unchanged library (no unexpected exception out of fsic)',
+                              f'{self.name}.unexpected-exception:{type(ex).__name__}:{f.name}', case, 'completes',
+                              f'{type(ex).__name__}: {str(ex)[:80]} at {os.path.basename(f.filename)}:{f.name}')]
+
     def replay(self, case) -> List[Violation]:
-        return self.check(case, BoundedResult(self.name, 'replay'))
+        return self.guarded_check(case, BoundedResult(self.name, 'replay'))
